@@ -816,16 +816,19 @@ class UnaryOp(Expr):
 
     @property
     def type(self):
-        if self.arg.type == Type.UNKNOWN:
+        # evaluate the operand's type once: a chain of unary
+        # operators would otherwise take exponential time
+        arg_type = self.arg.type
+        if arg_type == Type.UNKNOWN:
             return Type.UNKNOWN
 
         if self.op.is_logical:
-            if self.arg.type == Type.INTEGER:
+            if arg_type == Type.INTEGER:
                 return Type.INTEGER
             else:
                 return Type.LONG
         else:
-            return self.arg.type
+            return arg_type
 
     def eval(self):
         if not self.arg.type.is_numeric:
